@@ -1,8 +1,211 @@
+/-
+  Drv/Meta.lean — JSON ops over Model/Meta.lean.
+
+  frame   : {"cols": [[name, dtypeToken, kind], ...], "empty": bool}
+  register: [[name, unit, display_unit|null, display_format|null], ...]
+
+  "meta_check_dtype"    {unit, kind}                     -> null | {"exc"}
+  "meta_unit_from_kind" {kind}                           -> unit | {"exc"}
+  "meta_update_columns" {reg, frame, strict}             -> {"reg", "res"}
+  "meta_combine"        {srcs, out}                      -> reg | {"exc"}
+  "meta_hist"           {init: <make step>, steps: [...]} -> {"init": res, "steps": [{"res", "reg", "last"}, ...]}
+     every step carries the frame observed at that point ("frame") and a kind "k":
+       units | get{name} | iter | header | json | add_column{name,unit?,dunit?,fmt?} | set_units{map}
+       | set_all_units{units} | set_col_unit{name,unit} | rewrap{units?,strict?} | finalize{srcs,strict}
+       | make{units?,unit_map?,strict} | peek
+     rewrap / finalize / make replace the current info when they succeed.
+-/
 import Drv.Base
-open Lean Pdt
+import PdtModel.Model.Meta
+open Lean Pdt Pdt.Meta
 namespace Drv
 
-/-- op handler of the `Meta` layer (stub until the layer is built) -/
-def handleMeta (_op : String) (_j : Json) : Option (Except String Json) := none
+def metaErrName : Err → String
+  | .columnUnit => "ColumnUnitException"
+  | .invalidNaming => "InvalidNamingError"
+  | .valueError => "ValueError"
+  | .keyError => "KeyError"
+  | .invalidCombine => "InvalidTableCombineError"
+  | .indexError => "IndexError"
+  | .exception => "Exception"
+
+def optStrOfJson (j : Json) : Except String (Option Str) :=
+  match j with
+  | .null => pure none
+  | .str s => pure (some s.toList)
+  | _ => throw "expected string or null"
+
+def getOptStr (j : Json) (k : String) : Except String (Option Str) :=
+  match j.getObjVal? k with
+  | .ok v => optStrOfJson v
+  | .error _ => pure none
+
+def strOfJson (j : Json) : Except String Str := do
+  let s ← j.getStr?
+  pure s.toList
+
+def optStrToJson : Option Str → Json
+  | none => Json.null
+  | some s => str s
+
+def colOfJson (j : Json) : Except String Col := do
+  let a ← j.getArr?
+  match a.toList with
+  | [n, d, k] => pure { name := ← strOfJson n, dtype := ← strOfJson d, kind := ← strOfJson k }
+  | _ => throw "bad column"
+
+def frameOfJson (j : Json) : Except String Frame := do
+  let cols ← (← getArr j "cols").mapM colOfJson
+  let e ← getBool j "empty"
+  pure { cols := cols, empty := e }
+
+def regEntryOfJson (j : Json) : Except String (Str × ColMeta) := do
+  let a ← j.getArr?
+  match a.toList with
+  | [n, u, du, f] =>
+    pure (← strOfJson n, { unit := ← strOfJson u, dunit := ← optStrOfJson du, fmt := ← optStrOfJson f })
+  | _ => throw "bad register entry"
+
+def regOfJson (j : Json) : Except String Reg := do
+  let a ← j.getArr?
+  a.toList.mapM regEntryOfJson
+
+def regToJson (r : Reg) : Json :=
+  arr (r.map (fun kv => arr [str kv.1, str kv.2.unit, optStrToJson kv.2.dunit, optStrToJson kv.2.fmt]))
+
+def pairOfJson (j : Json) : Except String (Str × Str) := do
+  let a ← j.getArr?
+  match a.toList with
+  | [n, u] => pure (← strOfJson n, ← strOfJson u)
+  | _ => throw "bad pair"
+
+def getOptStrList (j : Json) (k : String) : Except String (Option (List Str)) :=
+  match j.getObjVal? k with
+  | .ok .null => pure none
+  | .ok v => do let a ← v.getArr?; pure (some (← a.toList.mapM strOfJson))
+  | .error _ => pure none
+
+def getOptPairs (j : Json) (k : String) : Except String (Option (List (Str × Str))) :=
+  match j.getObjVal? k with
+  | .ok .null => pure none
+  | .ok v => do let a ← v.getArr?; pure (some (← a.toList.mapM pairOfJson))
+  | .error _ => pure none
+
+def getOptBool (j : Json) (k : String) : Except String (Option Bool) :=
+  match j.getObjVal? k with
+  | .ok .null => pure none
+  | .ok v => do pure (some (← v.getBool?))
+  | .error _ => pure none
+
+def metaExc (e : Err) : Json := exc (metaErrName e)
+
+def optErrToJson : Option Err → Json
+  | none => Json.null
+  | some e => metaExc e
+
+def pairsToJson (ps : List (Str × Str)) : Json := arr (ps.map (fun p => arr [str p.1, str p.2]))
+
+def stepOut (i : Info) (res : Json) : Json :=
+  Json.mkObj [("res", res), ("reg", regToJson i.reg), ("last", Json.bool i.last.isSome)]
+
+def makeOfJson (j : Json) (f : Frame) : Except String (Except Err Info) := do
+  let us ← getOptStrList j "units"
+  let um ← getOptPairs j "unit_map"
+  let strict ← getBool j "strict"
+  pure (make f us um strict)
+
+/-- one step: new current info and the answer -/
+def metaStep (i : Info) (j : Json) : Except String (Info × Json) := do
+  let k ← (← j.getObjVal? "k").getStr?
+  let f ← frameOfJson (← j.getObjVal? "frame")
+  match k with
+  | "peek" => pure (i, Json.null)
+  | "units" =>
+    let (i1, r) := tableUnits i f
+    pure (i1, match r with | .ok us => arr (us.map str) | .error e => metaExc e)
+  | "get" =>
+    let n ← getStr j "name"
+    let (i1, r) := tableGetUnit i f n
+    pure (i1, match r with | .ok u => str u | .error e => metaExc e)
+  | "iter" =>
+    let (i1, r) := tableIter i f
+    pure (i1, match r with | .ok ps => pairsToJson ps | .error e => metaExc e)
+  | "header" =>
+    let (i1, r) := writerHeader i f
+    pure (i1, match r with
+      | .ok (ns, us, fs) => Json.mkObj [("names", arr (ns.map str)), ("units", arr (us.map str)),
+                                         ("fmts", arr (fs.map optStrToJson))]
+      | .error e => metaExc e)
+  | "json" =>
+    let (i1, r) := jsonPairs i f
+    pure (i1, match r with | .ok ps => pairsToJson ps | .error e => metaExc e)
+  | "add_column" =>
+    let n ← getStr j "name"
+    let (i1, e) := addColumn i f n (← getOptStr j "unit") (← getOptStr j "dunit") (← getOptStr j "fmt")
+    pure (i1, optErrToJson e)
+  | "set_units" =>
+    let m ← (← getArr j "map").mapM pairOfJson
+    let (i1, e) := setUnits i f m
+    pure (i1, optErrToJson e)
+  | "set_all_units" =>
+    let us ← (← getArr j "units").mapM strOfJson
+    let (i1, e) := setAllUnits i f us
+    pure (i1, optErrToJson e)
+  | "set_col_unit" =>
+    let (i1, e) := setColUnit i f (← getStr j "name") (← getStr j "unit")
+    pure (i1, optErrToJson e)
+  | "rewrap" =>
+    let us ← getOptStrList j "units"
+    let st ← getOptBool j "strict"
+    match rewrap i f us st with
+    | (_, .ok i2) => pure (i2, Json.null)
+    | (i1, .error e) => pure (i1, metaExc e)
+  | "finalize" =>
+    let srcs ← (← getArr j "srcs").mapM regOfJson
+    let strict ← getBool j "strict"
+    match finalize srcs strict f with
+    | .ok i2 => pure (i2, Json.null)
+    | .error e => pure (i, metaExc e)
+  | "make" =>
+    match ← makeOfJson j f with
+    | .ok i2 => pure (i2, Json.null)
+    | .error e => pure (i, metaExc e)
+  | _ => throw s!"unknown meta step {k}"
+
+def metaSteps : Info → List Json → List Json → Except String (List Json)
+  | _, [], acc => pure acc.reverse
+  | i, j :: js, acc => do
+    let (i1, a) ← metaStep i j
+    metaSteps i1 js (stepOut i1 a :: acc)
+
+def handleMeta (op : String) (j : Json) : Option (Except String Json) :=
+  match op with
+  | "meta_check_dtype" => some do
+    let u ← getStr j "unit"
+    let k ← getStr j "kind"
+    pure (match checkDtype { unit := u } k with | .ok _ => Json.null | .error e => metaExc e)
+  | "meta_unit_from_kind" => some do
+    let k ← getStr j "kind"
+    pure (match unitFromKind k with | .ok u => str u | .error e => metaExc e)
+  | "meta_update_columns" => some do
+    let r ← regOfJson (← j.getObjVal? "reg")
+    let f ← frameOfJson (← j.getObjVal? "frame")
+    let strict ← getBool j "strict"
+    let (r1, e) := updateColumns strict r f
+    pure (Json.mkObj [("reg", regToJson r1), ("res", optErrToJson e)])
+  | "meta_combine" => some do
+    let srcs ← (← getArr j "srcs").mapM regOfJson
+    let out ← (← getArr j "out").mapM strOfJson
+    pure (match combine out [] srcs with | .ok r => regToJson r | .error e => metaExc e)
+  | "meta_hist" => some do
+    let init ← j.getObjVal? "init"
+    let f ← frameOfJson (← init.getObjVal? "frame")
+    match ← makeOfJson init f with
+    | .error e => pure (Json.mkObj [("init", metaExc e), ("steps", arr [])])
+    | .ok i =>
+      let steps ← getArr j "steps"
+      let outs ← metaSteps i steps []
+      pure (Json.mkObj [("init", stepOut i Json.null), ("steps", arr outs)])
+  | _ => none
 
 end Drv
